@@ -237,6 +237,14 @@ def gen_requests(chk, user, plain, stored, full):
                     raw = build_request('POST', '/RPC2', version, hl, b'',
                                         ['Content-Length: %d' % len(inner), 'Connection: keep-alive']) + inner
                     out.append((('pipelined', '/RPC2', cls, 'POST', version.strip()), raw, True))
+    # 5b. keep-alive: a served request followed on the SAME connection by requests without / with wrong credentials
+    first = build_request('GET', '/stylesheets/supervisor.css', ' HTTP/1.1', [good, 'Connection: keep-alive'])
+    for cls, hl in auths:
+        if cls in PIPE_CLASSES or cls in ('empty:password', 'wrong:password-extended'):
+            for second in (build_request('GET', '/mainlogtail', ' HTTP/1.1', hl),
+                           build_request('POST', '/RPC2', ' HTTP/1.1', hl, rpc_body('rec.kill', 'after-good')),
+                           build_request('GET', '/index.html?action=stop&processname=g:p', ' HTTP/1.1', hl)):
+                out.append((('keepalive-after-good', '-', cls, '-', 'HTTP/1.1'), first + second, True))
     # 6. random structured + hostile mutations
     nrand = (700 if full else 250) if chk.tier == 'quick' else (12000 if full else 4000)
     for _ in range(nrand):
@@ -286,24 +294,30 @@ def gen_requests(chk, user, plain, stored, full):
 
 # ------------------------------------------------------------ observation
 
-def lenient_credentials(raw):
-    """Every (user, password) pair that some reading of the raw bytes could
-    take for a Basic credential: whatever follows the word basic (any case) up
-    to the end of the CRLF-terminated line, decoded with the lenient base64
-    decoder the server uses.  Used by the monitor, deliberately generous."""
-    out = []
+def credential_occurrences(raw):
+    """For every occurrence of the word basic (any case) followed by blank in
+    a CRLF-terminated line of the raw bytes: the (user, password) pairs some
+    reading of the rest of the line could yield, decoded with the lenient
+    base64 decoder the server uses.  Used by the monitor, deliberately generous."""
+    occ = []
     text = raw.decode('utf-8', 'replace')
     for line in text.split('\r\n'):
         for m in re.finditer(r'(?i)basic[ \t]', line):
             tok = line[m.end():]
+            pairs = []
             for cand in (tok, tok.strip(), tok.split(' ')[0], tok.split('\n')[0]):
                 try:
                     d = base64.decodebytes(cand.encode('utf-8')).decode('utf-8')
                 except Exception:
                     continue
                 if ':' in d:
-                    out.append(tuple(d.split(':', 1)))
-    return out
+                    pairs.append(tuple(d.split(':', 1)))
+            occ.append(pairs)
+    return occ
+
+
+def lenient_credentials(raw):
+    return [p for pairs in credential_occurrences(raw) for p in pairs]
 
 
 def acceptable(user, stored, u, p):
@@ -706,6 +720,8 @@ def _run(chk, wd, proved, only=None):
         finally:
             with contextlib.redirect_stdout(sink), contextlib.redirect_stderr(sink):
                 tb.close()
+    # --- a REAL supervisord process on a unix socket, queried with and without credentials
+    n_exchanges += _daemon_probe(chk, os.path.join(wd, 'daemon'))
     # --- extra single-line regex cases (random spellings)
     rng = chk.rng
     alphabet = [u'A', u'a', u'u', u'U', u't', u'h', u'o', u'r', u'i', u'I', u'\u0130', u'\u0131', u'z', u'Z', u'n',
@@ -768,6 +784,12 @@ def _judge(chk, user, stored, tags, raw, o, fam, extra=None):
                        'inner_calls': repr(o['inner']), 'status': o['status'], 'side_effects': {
                            'supervisord_access': o['access'], 'process_calls': repr(o['proc']), 'rpc_calls': repr(o['rpc'])}})
         return
+    n_valid = sum(1 for pairs in credential_occurrences(raw) if any(acceptable(user, stored, u, p) for (u, p) in pairs))
+    if len(o['inner']) > n_valid:
+        chk.violation({'sections': extra, 'kind': 'PROPERTY VIOLATED: more requests were served on this connection than carry '
+                       'valid credentials (authentication must be per request, not per connection)',
+                       'config': [user, stored], 'server': fam, 'raw': list(raw), 'tags': list(tags),
+                       'inner_calls': repr(o['inner']), 'valid_credential_occurrences': n_valid})
     for call in o['inner']:
         ai = call[1]
         if not (isinstance(ai, list) and len(ai) == 2 and acceptable(user, stored, ai[0], ai[1])):
@@ -787,6 +809,59 @@ def _judge(chk, user, stored, tags, raw, o, fam, extra=None):
         if leaks:
             chk.violation({'sections': extra, 'kind': 'PROPERTY VIOLATED: refused request had an effect', 'what': leaks,
                            'config': [user, stored], 'server': fam, 'raw': list(raw), 'status': o['status']})
+
+
+def _daemon_probe(chk, dwd):
+    import c17_daemon as D
+    d = D.Daemon(dwd, 'alice', 's3cret')
+    n = 0
+    try:
+        if not d.start():
+            chk.note('real-daemon probe skipped: supervisord did not come up in this environment')
+            chk.dist('daemon:unavailable')
+            return 0
+        good = 'Authorization: Basic ' + b64('alice:s3cret')
+        body = rpc_body('supervisor.getState')
+        kill = rpc_body('supervisor.stopProcess', 'echo')
+        probes = [
+            ('absent', build_request('GET', '/mainlogtail', ' HTTP/1.1', []), 401),
+            ('absent', build_request('POST', '/RPC2', ' HTTP/1.1', [], kill), 401),
+            ('wrong:password-prefix', build_request('POST', '/RPC2', ' HTTP/1.1', ['Authorization: Basic ' + b64('alice:s3cre')], kill), 401),
+            ('wrong:user', build_request('GET', '/index.html?action=stop&processname=echo', ' HTTP/1.1',
+                                         ['Authorization: Basic ' + b64('alic:s3cret')]), 401),
+            ('scheme:bearer', build_request('GET', '/logtail/echo', ' HTTP/1.1', ['Authorization: Bearer ' + b64('alice:s3cret')]), 401),
+            ('nocolon', build_request('GET', '/', ' HTTP/1.1', ['Authorization: Basic ' + b64('alice')]), 500),
+            ('b64:bad-padding', build_request('GET', '/', ' HTTP/1.1', ['Authorization: Basic QQ']), 400),
+            ('good', build_request('POST', '/RPC2', ' HTTP/1.1', [good], body), 200),
+            ('good', build_request('GET', '/stylesheets/supervisor.css', ' HTTP/1.1', [good]), 200),
+        ]
+        for cls, raw, want in probes:
+            buf = d.request(raw)
+            n += 1
+            chk.dist('daemon:' + cls.split(':')[0])
+            try:
+                st = int(buf.split(b'\r\n', 1)[0].split()[1])
+            except Exception:
+                st = None
+            bad = st != want or (want == 401 and b'WWW-Authenticate: Basic' not in buf)
+            if bad:
+                chk.violation({'kind': 'PROPERTY VIOLATED (real daemon): unexpected answer', 'class': cls, 'raw': list(raw),
+                               'expected_status': want, 'status': st, 'config': ['alice', 's3cret'],
+                               'response_head': buf[:300].decode('latin-1')})
+        # no refused request had an effect: the program is still running
+        rc, out = d.ctl(['status', 'echo'])
+        n += 1
+        if b'RUNNING' not in out:
+            chk.violation({'kind': 'PROPERTY VIOLATED (real daemon): a refused request changed the process state or '
+                           'supervisorctl with the configured credentials is not served', 'status_output': out.decode('utf-8', 'replace')})
+        rc, out = d.ctl(['-u', 'alice', '-p', 'nope', 'status'])
+        n += 1
+        if b'RUNNING' in out or b'echo' in out:
+            chk.violation({'kind': 'PROPERTY VIOLATED (real daemon): supervisorctl with a wrong password was served',
+                           'output': out.decode('utf-8', 'replace')})
+    finally:
+        d.stop()
+    return n
 
 
 CANON_OK = {
